@@ -64,6 +64,21 @@ type Ctx struct {
 	R        Result
 	seen     map[uint64]struct{}
 	nsample  int64
+
+	// resumable checks: cases are numbered; a restarted worker skips those up to Resume
+	Resume  int64
+	caseCtr int64
+}
+
+// NextCase numbers a case, publishes it (so that a crash or hang in it is attributable) and reports whether it
+// must be executed: false while catching up after a restart.
+func (c *Ctx) NextCase(describe string) bool {
+	c.caseCtr++
+	if c.caseCtr <= c.Resume {
+		return false
+	}
+	AnnounceCase(c.caseCtr, describe)
+	return true
 }
 
 func NewCtx(prop, tier string, shard, n int, deadline time.Time) *Ctx {
